@@ -31,6 +31,35 @@ def reveal_search(reg, c, info, seed):
             r.detail += ' | concrete failing input found with the spec functions revealed (obligation %s): confirmed by native replay' % m.oid
 
 
+def candidate_search(reg, c, info):
+    """the solver left an obligation undecided (typically: the counter-model needs non-linear or number-theoretic reasoning).  If the
+    contract names boundary inputs (option `candidates`: a list of {parameter: value}), run the REAL function on each and evaluate
+    the clause on the concrete pre/post states: a candidate that breaks it natively is a failing input -> violated, replayed.  Nothing
+    else changes: no candidate found leaves the obligation undecided, and the candidates are never consulted by a proof."""
+    from .pyvc import replay as rp
+    from .pyvc.verify import jsonable
+    cands = c.options.get('candidates')
+    if not cands:
+        return
+    if callable(cands):
+        cands = cands()
+    for r in info['results']:
+        if r.status != 'undecided' or r.kind not in ('raises_only', 'raises_iff', 'ensures', 'on_raise'):
+            continue
+        for cand in cands:
+            d = {'id': r.oid, 'kind': r.kind, 'clause': r.clause, 'witness': jsonable(cand)}
+            try:
+                rp.replay_violation(reg, c, d)
+            except Exception:      # noqa  (not replayable: next candidate)
+                continue
+            if d.get('replayed'):
+                r.status = 'violated'
+                r.witness, r.replayed, r.replay = cand, True, d.get('replay')
+                r.detail = ((r.detail or '') + ' | the solver left this obligation undecided; a boundary candidate named by the contract '
+                            'breaks the clause on the real code (native replay confirmed)')
+                break
+
+
 def pyvc_unit(prop, uid, build_registry, targets, timeout_ms=None, tiers=('quick', 'thorough'), weight=1, tag=None, fix=None):
     """targets: list of contract target names (all verified in one worker, sharing the registry)"""
 
@@ -55,6 +84,8 @@ def pyvc_unit(prop, uid, build_registry, targets, timeout_ms=None, tiers=('quick
                                      'entry_states': info.get('entry_states'), 'seconds': round(info.get('seconds', 0), 2)})
             if any(r.status == 'violated' and r.needs_reveal for r in info['results']):
                 reveal_search(reg, c, info, seed)
+            if any(r.status == 'undecided' for r in info['results']):
+                candidate_search(reg, c, info)
             if info['status'] != 'ok' and not info['results']:
                 out['results'].append({'id': '%s.%s.status' % (prop, t.replace('Crypto.', '')), 'kind': 'structure', 'clause': 'function verified',
                                        'status': 'error' if info['status'] == 'error' else 'undecided', 'backend': '', 'seconds': 0,
